@@ -16,8 +16,13 @@ void gb_fill(mp_ptr p, mp_size_t n);     /* poison */
 
 void drv_setz(mpz_ptr z, const char *hex);            /* sets z from a hex numeral without using the library's parser */
 void drv_rndz(mpz_ptr z, int limbs, int kind, int neg);
+void drv_setf(mpf_ptr f, const char *hexmant, long exp);   /* mantissa limbs from a hex numeral (at most prec+1 limbs, top limb non-zero), exponent in limbs */
 char *hex_of_limbs(const mp_limb_t *p, mp_size_t n, int neg);   /* malloc'd */
 /* representative operand sizes around a threshold t */
 int sizes_around(int *out, int max, const int *thr, int nthr, int lo, int hi);
 const char *opt_val(const shard_t *s, const char *key);   /* ",key=value," -> value (static buffer) or NULL */
+/* harness-private computations with the library (building operands): allocator events are not logged; every
+   temporary must be initialised and cleared inside the same window */
+void priv_begin(void); void priv_end(void);
+void pool_set_from(int i, mpz_srcptr v);      /* recorded as drv_setz(i, hex of v) */
 #endif
